@@ -10,6 +10,7 @@ From MV Require Import Opt.OptSrcLib.
 From MV Require Import Gen.OptSrc.
 From MV Require Import Opt.OptSrcProofs.
 From MV Require Import Opt.OptSrcTop.
+From MV Require Import Opt.OptSrcGlue.
 Import ListNotations.
 Open Scope N_scope.
 
@@ -330,10 +331,10 @@ Proof.
   destruct (mem_N c [39; 34]); apply Hkey; intros s2; apply Hrest.
 Qed.
 
-(* the tokenizer assembled from the functions translated from options.py is the hand model *)
+(* the entry point translated from options.py (options_to_items, _to_tokens, _tokenize, the scanners) is the hand model *)
 Theorem options_to_items_src_eq text : options_to_items_src text = options_to_items text.
 Proof.
-  unfold options_to_items_src, tokenize_src, options_to_items, tokenize. cbv zeta.
+  rewrite options_to_items_src_glue. unfold tokenize_src, options_to_items, tokenize. cbv zeta.
   rewrite <- (tokenize_f_src_eq _ _ _ (new_stream_wfs text)), <- tokenize_src_w1_eq. unfold projw.
   destruct (tokenize_src_w1 (fuel_of (new_stream text)) (new_stream text)) as [ts r]. reflexivity.
 Qed.
